@@ -47,7 +47,8 @@ Definition unbounded_inserters : list (string * string) :=
   map (fun b => (b_ty b, b_name b)) (filter (fun b => negb (bounds_ok b)) inserting_rows).
 
 Definition lookup_names : list string :=
-  ["get"; "get_key_value"; "contains_key"; "contains"; "iter"; "keys"; "values"; "len"; "is_empty"; "guard"; "pin"].
+  ["get"; "get_key_value"; "contains_key"; "contains"; "iter"; "keys"; "values"; "len"; "is_empty"; "guard"; "pin";
+   "with_guard"; "is_disjoint"; "is_subset"; "is_superset"].
 Definition lookups_unbounded : bool :=
   forallb (fun b => if mem (b_name b) lookup_names && collection_ty (b_ty b) && (b_trait b =? "")
                     then negb (b_k_send b || b_k_sync b || b_v_send b || b_v_sync b) else true) bounds.
